@@ -457,6 +457,11 @@ func c02Model(r *rand.Rand) *openfgav1.AuthorizationModel {
 			if td.Metadata == nil && nref > 0 {
 				td.Metadata = &openfgav1.Metadata{Relations: map[string]*openfgav1.RelationMetadata{}}
 			}
+			if td.Metadata != nil && usCountThis(us) == 0 && nref == 0 && r.Intn(3) == 0 {
+				// API-style JSON: a relation without direct assignment has no metadata entry although the type has
+				// metadata (module, other relations)
+				continue
+			}
 			if td.Metadata != nil {
 				if td.Metadata.Relations == nil {
 					td.Metadata.Relations = map[string]*openfgav1.RelationMetadata{}
